@@ -2606,6 +2606,11 @@ spec fn topo_ok(topo: Option<Vec<usize>>, dag: &GraphType) -> bool {
         && forall|m: usize| #![trigger topo.unwrap()@.contains(m)] topo.unwrap()@.contains(m) <==> dag.nodes_set().contains(m)
 }
 
+/// C13: a pending "this job is finished" announcement for node d (its handler examines d's Ephemeral upstreams for cleanup)
+spec fn has_done_signal(s: Seq<Signal>, d: usize) -> bool {
+    exists|k: int| 0 <= k < s.len() && (#[trigger] s[k]).kind == SignalKind::JobDone && s[k].node_idx == d
+}
+
 /// C07: a pending "your upstream failed" notification for node d
 spec fn has_upfail_signal(s: Seq<Signal>, d: usize) -> bool {
     exists|k: int| 0 <= k < s.len() && (#[trigger] s[k]).kind == SignalKind::JobUpstreamFailure && s[k].node_idx == d
